@@ -60,7 +60,7 @@ def judge(case, res, exp):
 def run(ctx):
     n = ctx.scale(900, 25000)
     rng = ctx.rng
-    cases = [semrun.make_case(rng) for _ in range(n)]
+    cases = [semrun.make_case(rng, profile={'accent_rest': True} if i % 3 == 0 else None) for i in range(n)]
     cases += [semrun.crlf_variant(c) for c in cases[::5]]
     ctx.stats['_rule'] = ('well-formed G-doc documents in random layouts, a fifth of them also with CR LF line breaks; every occurrence of a unique literal word in the output must carry the '
                           'offsets where the AST renderer put it; every position-counting token of the final token list must be a literal slice of the '
